@@ -3,7 +3,7 @@
 from .. import core, tree
 
 MOD = "mc.props.c15"
-KINDS = ("node", "user", "light", "weird", "falsy", "eqhash", "falsylight")
+KINDS = ("node", "user", "light", "weird", "falsy", "eqhash", "falsylight", "norepr")
 
 
 def expected(m, a, b):
@@ -22,6 +22,8 @@ def check_forest(t, trees, kinds=KINDS):
 
     m = tree.Model.from_forest(trees)
     for kind in kinds:
+        if kind == "norepr" and len(trees) > 1:
+            continue  # the WalkError message legitimately needs the reprs; within one tree no repr is needed
         nodes = tree.build(m, tree.default_factory(kind), "topdown")
         idm = tree.IdMap(nodes)
         w = anytree.Walker()
